@@ -70,12 +70,68 @@ pub fn case_strategy(max_arrivals: usize) -> impl Strategy<Value = Case> {
         .prop_map(|(origins, queue_len, apply_len, chan_len, txs, cuts, arrivals, hold_from, hold_len)| Case { origins, queue_len, apply_len, chan_len, txs, cuts, arrivals, hold_from, hold_len })
 }
 
+/// few distinct (actor, version) keys, many chunks of them, a queue a little longer than the number
+/// of keys: the node's duplicate-suppression cache is then never trimmed wholesale, so a changeset
+/// that was shed but stays marked as seen can never come back
+pub fn few_keys_strategy(max_arrivals: usize) -> impl Strategy<Value = Case> {
+    (
+        2u8..=3,
+        4u8..=6,
+        1u8..=2,
+        4u8..=8,
+        proptest::collection::vec(tx_strategy(), 3),
+        proptest::collection::vec((0u8..3, (0u8..1, proptest::collection::vec((any::<u8>(), 0u8..2), 1..3)).prop_map(|(ver, ranges)| NeedSpec::Partial { ver, ranges })), 12..30),
+        proptest::collection::vec(any::<u16>(), 30..=max_arrivals.max(31)),
+        0u8..6,
+        40u8..60,
+    )
+        .prop_map(|(origins, queue_len, apply_len, chan_len, txs, cuts, arrivals, hold_from, hold_len)| Case {
+            origins,
+            queue_len,
+            apply_len,
+            chan_len,
+            txs: txs.into_iter().enumerate().take(origins as usize).map(|(i, t)| (i as u8, t)).collect(),
+            cuts,
+            arrivals,
+            hold_from,
+            hold_len,
+        })
+}
+
 async fn contained(w: &World, r: usize, c: &ChangeV1) -> bool {
     let booked = { w.nodes[r].bookie.read::<&str, _>("c10", None).await.get(&c.actor_id).cloned() };
     match booked {
         None => false,
         Some(b) => b.read::<&str, _>("c10", None).await.contains_all(c.versions(), c.seqs()),
     }
+}
+
+/// wait until the ingest loop took up everything sent so far and finished the jobs it spawned for it
+async fn settle(w: &World, r: usize, tx: &klukai_types::channel::CorroSender<(ChangeV1, ChangeSource)>, marker: klukai_types::actor::ActorId, no: &mut u64) -> Result<(), Fail> {
+    *no += 1;
+    // one bookkeeping key for all markers (an ever growing partial version of the marker actor), so
+    // that the markers do not fill - and thereby flush - the node's seen-cache
+    let m = ChangeV1 {
+        actor_id: marker,
+        changeset: Changeset::Full {
+            version: CrsqlDbVersion(1),
+            changes: vec![],
+            seqs: klukai_types::base::CrsqlSeq(*no)..=klukai_types::base::CrsqlSeq(*no),
+            last_seq: klukai_types::base::CrsqlSeq(10_000_000),
+            ts: Default::default(),
+        },
+    };
+    tx.send((m.clone(), ChangeSource::Sync)).await.map_err(|e| Fail::infra(format!("tx_changes closed: {e}")))?;
+    let deadline = Instant::now() + Duration::from_secs(60);
+    while !contained(w, r, &m).await {
+        if Instant::now() > deadline {
+            return Err(Fail::new("ingest-loop-makes-progress", format!("a changeset sent to an otherwise idle node was not processed within 60s (marker #{no})")));
+        }
+        tokio::time::sleep(Duration::from_millis(2)).await;
+    }
+    let c = w.nodes[r].agent.pool().write_low().await.map_err(|e| Fail::infra(e.to_string()))?;
+    drop(c);
+    Ok(())
 }
 
 async fn run_case(case: &Case, info: &mut CaseInfo, root: std::path::PathBuf) -> Result<(), Fail> {
@@ -156,63 +212,70 @@ async fn run_case(case: &Case, info: &mut CaseInfo, root: std::path::PathBuf) ->
     }
     let dropped_before = ids.len() > case.queue_len as usize + 5;
 
-    // after the overload: wait until stable, then re-offer what is not contained; at most 4 rounds
+    // After the overload.  Idleness of the ingest loop is observed, not timed: a marker changeset (an
+    // Empty of a dedicated actor) is sent through the same channel; the channel and the queue are FIFO,
+    // so once the marker is contained everything offered before it was taken up (processed, shed or
+    // suppressed), and a low-priority write request is only granted after every earlier normal-priority
+    // job of the loop finished.  Then whatever is not contained is offered again - paced (one offer,
+    // then idle), so that the re-offers themselves cannot overflow the queue - for at most 3 rounds.
+    let marker_actor = klukai_types::actor::ActorId(uuid::Uuid::from_u128(0x3A3A_3A3A));
+    w.ignore_actor = Some(marker_actor);
+    let mut marker_no = 0u64;
     let mut rounds = 0;
+    let mut reoffers = 0u64;
     loop {
-        // positive polling: done as soon as everything is contained; otherwise wait until nothing moved for 400ms
-        let deadline = Instant::now() + Duration::from_secs(30);
-        let mut last_progress = Instant::now();
-        let mut last_missing = usize::MAX;
-        let missing: Vec<usize> = loop {
-            // the apply loop of the agent is played by the harness
-            let mut eff = Effects::default();
-            w.apply(r, true, 0, &mut eff).await?;
-            let mut miss = vec![];
-            for id in &offered {
-                if !contained(&w, r, &w.pool[*id].change).await {
-                    miss.push(*id);
-                }
+        settle(&w, r, &tx_changes, marker_actor, &mut marker_no).await?;
+        let mut eff = Effects::default();
+        w.apply(r, true, 0, &mut eff).await?;
+        let mut missing = vec![];
+        for id in &offered {
+            if !contained(&w, r, &w.pool[*id].change).await {
+                missing.push(*id);
             }
-            if miss.is_empty() {
-                break miss;
-            }
-            if miss.len() != last_missing {
-                last_missing = miss.len();
-                last_progress = Instant::now();
-            }
-            if last_progress.elapsed() > Duration::from_millis(400) || Instant::now() > deadline {
-                break miss;
-            }
-            tokio::time::sleep(Duration::from_millis(5)).await;
-        };
+        }
         if missing.is_empty() {
             break;
         }
         ensure!(
-            rounds < 4,
+            rounds < 3,
             "applied-after-finitely-many-offers",
-            "after the overload ended and 4 re-offer rounds {} of {} offered changesets are still not contained, e.g. {} (queue_len {}, apply_len {})",
+            "after the overload ended and 3 paced re-offer rounds {} of {} offered changesets are still not contained, e.g. {} of node {} (queue_len {}, apply_len {}, {} origins)",
             missing.len(),
             offered.len(),
             crate::sim::cs_brief(&w.pool[missing[0]].change),
+            w.pool[missing[0]].origin,
             case.queue_len,
-            case.apply_len
+            case.apply_len,
+            case.origins
         );
         rounds += 1;
         info.class("needed-a-re-offer-round");
         for id in &missing {
             let change = w.pool[*id].change.clone();
             tx_changes.send((change, ChangeSource::Sync)).await.map_err(|e| Fail::infra(format!("tx_changes closed: {e}")))?;
+            reoffers += 1;
+            settle(&w, r, &tx_changes, marker_actor, &mut marker_no).await?;
         }
     }
-    // let the last batch settle: apply what became complete
-    w.await_expected_triggers(r).await?;
+    let _ = reoffers;
+    // let the last batch settle: apply what became complete (apply triggers are checked by C03; here
+    // the real processing order is not the offer order, so the model cannot predict them)
+    tokio::time::sleep(Duration::from_millis(30)).await;
     let mut eff = Effects::default();
     w.apply(r, true, 0, &mut eff).await?;
     w.clear(r).await?;
     loop_handle.abort();
 
     // the node holds exactly what was offered
+    if std::env::var_os("KVERIF_TRACE").is_some() {
+        eprintln!("offered (first-offer order):");
+        for id in &offered {
+            eprintln!("   #{id} about n{}: {}", w.pool[*id].origin, crate::sim::cs_brief(&w.pool[*id].change));
+        }
+        eprintln!("arrival ids {ids:?} hold {hold_from}..{hold_to}");
+        eprintln!("model: {:?}", w.models[r]);
+        eprintln!("state: {:?}", w.nodes[r].sync_state().await);
+    }
     w.check_advertised(r).await?;
     w.check_visibility(r, "after overload and re-offers").await?;
     // every Empty / complete version offered is contained as a whole
@@ -239,10 +302,11 @@ pub fn check(case: &Case, info: &mut CaseInfo) -> Result<(), Fail> {
 
 pub fn run(ctx: &Ctx, rep: &mut Report) {
     let (n, arrivals) = match ctx.tier {
-        Tier::Quick => (300, 40),
+        Tier::Quick => (200, 40),
         Tier::Thorough => (6_000, 60),
     };
     run_prop(ctx, rep, "overload", case_strategy(arrivals), n, 100, check);
+    run_prop(ctx, rep, "few-keys", few_keys_strategy(arrivals + 10), n, 100, check);
 }
 
 pub fn replay(_sub: &str, case: &serde_json::Value) -> Result<CaseInfo, Fail> {
